@@ -281,6 +281,23 @@ Proof.
   destruct (is_ya_nukta_script s); [exfalso; apply Hne; apply Hb; reflexivity|reflexivity].
 Qed.
 
+(* scripts without an extra step: the output is the combining-class sort of the expanded text E, so a
+   class-0 character of E keeps its index and only the mark runs of E are rearranged *)
+Lemma indic_positions cs tag out : dispatch_action tag = ActIndic ->
+  tag <> REF_BENGALI_TAG -> tag <> REF_KANNADA_TAG ->
+  preprocess_text class cs tag = Ok out ->
+  let E := flat_map expand_matra (cv_spec cs) in
+  out = sort_p class E /\ length out = length E /\
+  (forall i z, nth_error E i = Some z -> class z = 0 -> nth_error out i = Some z).
+Proof.
+  intros H Hb Hk Ho E. destruct (indic_spec_top cs tag H) as (s & Hs & Hp). rewrite Hp in Ho. inversion Ho; subst.
+  destruct (indic_script_steps tag s Hs) as [H1 H2].
+  unfold indic_p, indic_tail.
+  destruct (is_ya_nukta_script s); [exfalso; apply Hb; apply H1; reflexivity|].
+  destruct (is_ra_halant_script s); [exfalso; apply Hk; apply H2; reflexivity|].
+  fold E. split; [reflexivity|]. split; [apply sort_p_length|]. intros i z. apply sort_p_base_fixed.
+Qed.
+
 (* ---- Khmer ---- *)
 Lemma khmer_content cs tag out : dispatch_action tag = ActKhmer ->
   preprocess_text class cs tag = Ok out ->
